@@ -214,6 +214,48 @@ fn c14_import_paths_agree() {
     core::mem::forget(b);
 }
 
+/// Two multi-action infosets: each weight lands in the slot of its own infoset and action, in both
+/// import functions (layout of the dense vector), and they agree bit for bit.
+#[kani::proof]
+#[kani::unwind(3)]
+fn c14_import_two_infosets_layout() {
+    let infos = [
+        PlayerInfosetData { infoset: 10u8, actions: Box::new([0u8, 1]) as Box<[u8]>, prev_infoset: None },
+        PlayerInfosetData { infoset: 11u8, actions: Box::new([0u8, 1]) as Box<[u8]>, prev_infoset: Some(0) },
+    ];
+    let singles: [(u8, u8); 0] = [];
+    let act = |k: bool| if k { 1u8 } else { 0u8 };
+    let (a0, a1): (bool, bool) = (kani::any(), kani::any());
+    let swap: bool = kani::any();
+    let (l0, l1) = if swap { (11u8, 10u8) } else { (10u8, 11u8) };
+    let es = [(l0, [(act(a0), 1.0f64)]), (l1, [(act(a1), 3.0f64)])];
+    let slow = Game::<u8, u8>::strat_into_box_slow(es.iter().map(|(l, ps)| (*l, ps.iter().map(|(a, w)| (*a, *w)))), &infos[..], &singles[..]);
+    let hash = Game::<u8, u8>::strat_into_box(es.iter().map(|(l, ps)| (*l, ps.iter().map(|(a, w)| (*a, *w)))), &infos[..], &singles[..]);
+    kani::cover!(swap && a0 && !a1, "second infoset listed first");
+    for r in [&slow, &hash] {
+        match r {
+            Ok(d) => {
+                assert!(d.len() == 4, "C14 value: wrong layout");
+                macro_rules! slot {
+                    ($i:expr) => {
+                        let (lab, ac) = (10 + ($i / 2) as u8, ($i % 2) as u8);
+                        let hit = (l0 == lab && act(a0) == ac) || (l1 == lab && act(a1) == ac);
+                        assert!(d[$i] == if hit { 1.0 } else { 0.0 }, "C14 value: a weight landed in the slot of another infoset or action");
+                    };
+                }
+                slot!(0);
+                slot!(1);
+                slot!(2);
+                slot!(3);
+            }
+            Err(_) => assert!(false, "C14 reject: valid import over two infosets rejected"),
+        }
+    }
+    core::mem::forget(slow);
+    core::mem::forget(hash);
+    core::mem::forget(infos);
+}
+
 #[cfg(test)]
 #[path = "/verif/.work/playback/c14.rs"]
 mod pb;
